@@ -46,6 +46,31 @@ Proof.
 Qed.
 Print Assumptions C19_registry.
 
+(** Of the conditions in [wf_msg], the array-count and blob-size bounds are consequences of
+    the encoding fitting MAX_MESSAGE_SIZE: one generated obligation per array field,
+    MAX_MESSAGE_SIZE < min_size(element) * 2^16, closed by computation.  What remains,
+    [ty_msg], is what every Rust value satisfies unless as_vec panics on it (integer ranges,
+    fixed lengths, Octets < 2^16, NUL-free WireStrings), consistency of streamed PSBTs, and
+    the count bound of arrays whose elements can be shorter than 3 bytes (Array<WireString>:
+    `Array` writes its count with `as u16`, so 65536 one-byte strings are not denotable). *)
+Theorem C19_wf_from_size :
+  forall (B : blob_ops) (m : msg B),
+    ty_msg B m = true -> lenN (as_vec B m) <= MAX_MESSAGE_SIZE -> wf_msg B m = true.
+Proof. exact wf_from_size. Qed.
+Print Assumptions C19_wf_from_size.
+
+(** The property with only those hypotheses. *)
+Theorem C19_registry_sized :
+  forall B : blob_ops, blob_laws B -> forall m : msg B,
+    ty_msg B m = true ->
+    lenN (as_vec B m) <= MAX_MESSAGE_SIZE ->
+    from_vec MAX_MESSAGE_SIZE (table B) (as_vec B m) = Some (Known m).
+Proof.
+  intros B HB m Ht Hs. apply (C19_registry B HB m); [|exact Hs].
+  apply C19_wf_from_size; assumption.
+Qed.
+Print Assumptions C19_registry_sized.
+
 (** Streamed PSBT, second sentence of the property: whenever the streamed decoder accepts,
     the decoded transaction is the encoded one, every input's previous output is the one the
     encoded PSBT designates, the per-input segwit flags are the reference flags, and no
@@ -95,7 +120,7 @@ Example C19_nonvacuous :
   let u := Build_Utxo (rep 32 7) 4294967295 18446744073709551615 0 true (hx "0014aabb"%string)
                       (Some (Build_CloseInfo 9 (rep 33 2) None false 144)) false in
   let m := M_SignWithdrawal B1 (Build_SignWithdrawal B1 [u; u] (hx "70736274ff"%string)) in
-  wf_msg B1 m = true /\ lenN (as_vec B1 m) <= MAX_MESSAGE_SIZE /\
+  ty_msg B1 m = true /\ wf_msg B1 m = true /\ lenN (as_vec B1 m) <= MAX_MESSAGE_SIZE /\
   from_vec MAX_MESSAGE_SIZE (table B1) (as_vec B1 m) = Some (Known m).
 Proof. split; [exact B1_laws|]. vm_compute. repeat split; congruence. Qed.
 
